@@ -88,6 +88,11 @@ pub enum OwnerOp {
     Gate(u64),
     /// the broker closes the nth kept channel; the owner waits for that to be processed and drops its handle
     ServerCloseKept { nth: usize, code: u16 },
+    /// the broker closes the nth kept channel and, `lead_ns` later, the owner closes it too without waiting for
+    /// anything: the two Close frames may cross; the owner then sleeps `settle_ns`
+    CrossCloseKept { nth: usize, code: u16, lead_ns: u64, settle_ns: u64 },
+    /// the peer stops reading now and resumes after this many nanoseconds (the owner does not wait)
+    StallFor(u64),
     /// publish `count` messages of `len` bytes on the nth kept channel
     PublishKept { nth: usize, count: usize, len: usize },
 }
@@ -234,6 +239,32 @@ fn owner_main(plan: SessionPlan, stream: crate::stream::SimStream, hist: Hist) {
                         drop(ch);
                     }
                 }
+            }
+            OwnerOp::CrossCloseKept { nth, code, lead_ns, settle_ns } => {
+                if let Some(slot) = kept.get_mut(*nth) {
+                    if let Some(ch) = slot.take() {
+                        let id = ch.channel_id();
+                        let code = *code;
+                        crate::world::call_in(0, move |w| w.broker.do_action(crate::broker::Action::CloseChannel { ch: id, code, text: format!("server-close-{}", id) }));
+                        if *lead_ns > 0 {
+                            simrt::sleep_ns(*lead_ns);
+                        }
+                        let invoke = stamp();
+                        let r = ch.close();
+                        hist.lock().unwrap().conn.push(ConnRec::KeptClosed { id, invoke, result: r.map_err(|e| err_string(&e)) });
+                        hist.lock().unwrap().notes.push(format!("cross-closed {}", id));
+                        if *settle_ns > 0 {
+                            simrt::sleep_ns(*settle_ns);
+                        }
+                    }
+                }
+            }
+            OwnerOp::StallFor(ns) => {
+                let ns = *ns;
+                crate::world::call_in(0, |w| w.set_stall(true));
+                crate::world::call_in(ns, |w| w.set_stall(false));
+                // let the stall take effect before the next operation
+                simrt::sleep_ns(2_000);
             }
             OwnerOp::PublishKept { nth, count, len } => {
                 if let Some(Some(ch)) = kept.get(*nth) {
